@@ -51,12 +51,12 @@ func verifOneSpanTrace(sp *types.Span) *types.Trace {
 
 // the same number in two msgpack encodings: int64 vs int32 / uint64 / uint32 / uint8 / float64 of an
 // integer (intAsFloat), or float64 vs float32 of a float
-func verifTwoEncodings() (rawA, rawB []byte, intAsFloat bool) {
+func verifTwoEncodings() (rawA, rawB []byte, intAsFloat, isFloat bool) {
 	if zz.NondetBool("float") {
 		f := math.Float32frombits(zz.NondetUint32("f32bits"))
 		zz.Assume(f == f)
 		zz.Assume(f != 0)
-		return verifBE(0xcb, math.Float64bits(float64(f)), 8), verifBE(0xca, uint64(math.Float32bits(f)), 4), false
+		return verifBE(0xcb, math.Float64bits(float64(f)), 8), verifBE(0xca, uint64(math.Float32bits(f)), 4), false, true
 	}
 	v := zz.NondetUint64("value")
 	rawA = verifBE(0xd3, v, 8) // int64: what a Go client and the JSON path produce
@@ -83,7 +83,7 @@ func verifTwoEncodings() (rawA, rawB []byte, intAsFloat bool) {
 		zz.Assume(v < 1<<31)
 		rawB = verifBE(0xd2, v, 4) // int32
 	}
-	return rawA, rawB, intAsFloat
+	return rawA, rawB, intAsFloat, false
 }
 
 // C09 (numeric wire types, sample key): one numerically equal value carried as msgpack int64 /
@@ -94,9 +94,8 @@ func Harness_C09_wire_key() {
 		"(*github.com/honeycombio/refinery/sample.traceKey).build")
 	zz.AssumeHashInjective()
 	zz.Bound("spans", 1)
-	rawA, rawB, intAsFloat := verifTwoEncodings()
-	// number formatting is an uninterpreted token per Go type: int-vs-float rendering is outside the model
-	zz.Assume(!intAsFloat)
+	rawA, rawB, intAsFloat, _ := verifTwoEncodings()
+	_ = intAsFloat // an integral float prints like the integer (model: floatString), so this pair is in too
 	memo := zz.NondetBool("memoised")
 	ta := verifOneSpanTrace(verifWireSpan(rawA, memo))
 	tb := verifOneSpanTrace(verifWireSpan(rawB, memo))
@@ -105,23 +104,28 @@ func Harness_C09_wire_key() {
 	zz.Assert(ka == kb, "numerically equal values give the same sample key whatever their wire type")
 }
 
-// C09 (numeric wire types, rules): the same pairs of encodings, plus an integer sent as a float64,
-// give the same rule outcome for every comparison operator, in / not-in, datatype and condition value.
+// C09 (numeric wire types, rules): the same pairs of encodings, plus an integer sent as a float64 (what
+// every JSON number becomes), give the same rule outcome for every comparison operator, in / not-in,
+// the string-coerced operators, every datatype and condition value.
 func Harness_C09_wire_rules() {
 	zz.MustCover("(*github.com/honeycombio/refinery/types.Payload).Get",
 		"(*github.com/honeycombio/refinery/sample.RulesBasedSampler).GetSampleRate")
 	zz.Bound("spans", 1)
-	rawA, rawB, intAsFloat := verifTwoEncodings()
+	rawA, rawB, _, isFloat := verifTwoEncodings()
 	memo := zz.NondetBool("memoised")
 	ta := verifOneSpanTrace(verifWireSpan(rawA, memo))
 	tb := verifOneSpanTrace(verifWireSpan(rawB, memo))
-	ops := []string{config.EQ, config.NEQ, config.GT, config.GTE, config.LT, config.LTE, config.In, config.NotIn}
+	ops := []string{config.EQ, config.NEQ, config.GT, config.GTE, config.LT, config.LTE, config.In, config.NotIn,
+		config.StartsWith, config.Contains, config.DoesNotContain}
 	opi := zz.Choose("op", len(ops))
 	op := ops[opi]
-	dts := []string{"", "int", "float"}
+	dts := []string{"", "int", "float", "string"}
 	dt := dts[zz.Choose("datatype", len(dts))]
-	if intAsFloat && dt == "" {
-		zz.Assume(opi < 6) // in / not-in without a datatype compare the %v renderings (see above)
+	if isFloat {
+		// a non-integral float's rendering is an opaque token whatever its width: the string-coerced
+		// operators add nothing for the float32 / float64 pair
+		zz.Assume(dt != "string")
+		zz.Assume(opi < 8)
 	}
 	var val any
 	if zz.NondetBool("floatValue") {
